@@ -6,9 +6,11 @@ import (
 )
 
 // Loop invariant of NameBuilder.unpack (variables as in the source):
-//   0 <= currOff, 0 <= ptr <= 10, 0 <= len(name) <= 254,
-//   ptr == 0  =>  currOff >= off          (no pointer followed yet: still inside this name)
-//   ptr  > 0  =>  off < newOff <= len(msg) (the cursor after the first pointer is fixed and in range)
+//
+//	0 <= currOff, 0 <= ptr <= 10, 0 <= len(name) <= 254,
+//	ptr == 0  =>  currOff >= off          (no pointer followed yet: still inside this name)
+//	ptr  > 0  =>  off < newOff <= len(msg) (the cursor after the first pointer is fixed and in range)
+//
 // Variant: (10 - ptr) * 70000 + (65535 - currOff) strictly decreases unless a pointer is followed, in which
 // case ptr increases; with the hop limit this bounds the number of iterations.
 func vNameInv(off, lenMsg, currOff, newOff, ptr, nameLen int) bool {
@@ -130,4 +132,3 @@ func VerifH_C01_QuestionAnyLength() {
 	verifrt.Reach("ok")
 	verifrt.Assert(q != nil && off2 > off && off2 <= len(msg), "cursor advanced and inside the buffer")
 }
-
